@@ -68,6 +68,12 @@ def Tree.absMap (t : Tree) (inst : Option Nat) : KMap :=
 /-- memtable insert at the drawn seqno -/
 def Tree.apply (t : Tree) (e : VEntry) : Tree := { t with active := e :: t.active }
 
+/-- memtable insert as the skip map does it (`SkipMap::insert`): an entry with the same
+    (key, seqno) is replaced.  Only a batch can name a key twice under one seqno; for a write at a
+    fresh seqno this is `Tree.apply`. -/
+def Tree.applyR (t : Tree) (e : VEntry) : Tree :=
+  { t with active := e :: t.active.filter fun x => !(decide (x.key = e.key) && decide (x.seqno = e.seqno)) }
+
 /-- `Tree::clear`: a fresh version with empty memtables and no tables -/
 def Tree.clear (_ : Tree) : Tree := {}
 
